@@ -1627,7 +1627,7 @@ func c19GenRate(c *Ctx) (cases []c19Case) {
 }
 
 var (
-	c19HdrKeys   = []string{"X-Id", "x-id", "X-ID", "x-Id", "X-iD", "Authorization", "authorization", "AUTHORIZATION", "Accept", "accept", "Content-Type", "content-type", "Content-type", "X_Under_Score", "x-trace.id", "X-Custom-Header-With-A-Long-Name", "a", "Z", "If-None-Match", "ETag", "Etag", "etag", "SOAPAction", "soapaction", "Cookie", "cookie", "x!tok~", "X-1", "x-1",
+	c19HdrKeys = []string{"X-Id", "x-id", "X-ID", "x-Id", "X-iD", "Authorization", "authorization", "AUTHORIZATION", "Accept", "accept", "Content-Type", "content-type", "Content-type", "X_Under_Score", "x-trace.id", "X-Custom-Header-With-A-Long-Name", "a", "Z", "If-None-Match", "ETag", "Etag", "etag", "SOAPAction", "soapaction", "Cookie", "cookie", "x!tok~", "X-1", "x-1",
 		// names net/http gives a meaning of its own: the flag still only records what was written
 		"Host", "host", "HOST", "hOsT", "Content-Length", "content-length", "Transfer-Encoding", "transfer-encoding", "User-Agent", "user-agent", "USER-AGENT",
 		"Connection", "connection", "Te", "TE", "Expect", "expect", "Accept-Encoding", "accept-encoding", "Date", "date", "Range", "range", "Trailer", "Upgrade", "upgrade"}
